@@ -25,6 +25,7 @@ type Analyzer struct {
 	readsCache  map[*ssa.Function]map[string]bool
 	anchors     *K
 	valsum     map[*ssa.Function]*Term
+	valsumBusy map[*ssa.Function]bool
 }
 
 func NewAnalyzer(p *Prog) *Analyzer {
@@ -329,22 +330,284 @@ func (a *Analyzer) computeEffects() {
 }
 
 func (a *Analyzer) isInlinable(f *ssa.Function) bool {
-	if s := a.inlinable[f]; s != 0 {
-		return s == 1
-	}
-	ok := f.Blocks != nil && len(f.Blocks) == 1 && a.effectFree[f] && inLibraryScope(funcPkgPath(f)) &&
-		!isSpecTypesPkg(funcPkgPath(f)) && !keepNamed[shortName(f)]
-	if ok {
-		if _, isRet := f.Blocks[0].Instrs[len(f.Blocks[0].Instrs)-1].(*ssa.Return); !isRet {
-			ok = false
+	return a.valueSummary(f) != nil
+}
+
+// closedTerm: expressible over the parameters only (no path-dependent, fresh or unknown sub-terms).
+func closedTerm(t *Term) bool {
+	return !t.Contains(func(s *Term) bool {
+		switch s.Op {
+		case "phi", "unk", "make", "cell", "select", "recv", "deref", "mapif", "rangeit":
+			return true
+		case "elem", "mapkey", "mapval":
+			return true // an element of the callee's own loop that was not generalised
+		}
+		return false
+	})
+}
+
+func placeholderEnv(a *Analyzer, f *ssa.Function) map[ssa.Value]*Term {
+	env := map[ssa.Value]*Term{}
+	for i, p := range f.Params {
+		if sg := a.singletonOf(p.Type()); sg != "" {
+			env[p] = This(sg)
+		} else {
+			env[p] = T("param", itoa(i))
 		}
 	}
-	if ok {
-		a.inlinable[f] = 1
-	} else {
-		a.inlinable[f] = 2
+	for i, fv := range f.FreeVars {
+		if sg := a.singletonOf(fv.Type()); sg != "" {
+			env[fv] = This(sg)
+		} else {
+			env[fv] = T("param", "f"+itoa(i))
+		}
 	}
-	return ok
+	return env
+}
+
+// valueSummary: the value a call of f returns, as a term over parameter placeholders, when it can be stated exactly:
+// (A) a single return site whose result term is closed (loops are fine when they generalise: map / sum / collect);
+// (B) an effect-free, loop-free function with several return sites: a conditional (ite / and / or) term over its paths.
+// Exported effectful functions are anchors and stay named.
+func (a *Analyzer) valueSummary(f *ssa.Function) *Term {
+	if a.valsum == nil {
+		a.valsum = map[*ssa.Function]*Term{}
+		a.valsumBusy = map[*ssa.Function]bool{}
+	}
+	if t, ok := a.valsum[f]; ok {
+		return t
+	}
+	if a.valsumBusy[f] {
+		return nil
+	}
+	a.valsumBusy[f] = true
+	t := a.computeValueSummary(f)
+	delete(a.valsumBusy, f)
+	a.valsum[f] = t
+	return t
+}
+
+func (a *Analyzer) computeValueSummary(f *ssa.Function) *Term {
+	if f.Blocks == nil || !inLibraryScope(funcPkgPath(f)) || isSpecTypesPkg(funcPkgPath(f)) || keepNamed[shortName(f)] {
+		return nil
+	}
+	if f.Recover != nil || f.Signature.Results().Len() == 0 {
+		return nil
+	}
+	pure := a.effectFree[f]
+	if !pure {
+		// effectful helpers: only unexported ones, and never the state setters / registry (their results are modelled by summaries)
+		if f.Object() != nil && f.Object().Exported() {
+			return nil
+		}
+		if strings.HasPrefix(funcPkgPath(f), modPath+"/state") {
+			return nil
+		}
+	}
+	var rets []*ssa.Return
+	for _, b := range f.Blocks {
+		if r, ok := b.Instrs[len(b.Instrs)-1].(*ssa.Return); ok {
+			rets = append(rets, r)
+		}
+	}
+	if len(rets) == 0 {
+		return nil
+	}
+	env := placeholderEnv(a, f)
+	resultTerm := func(c *FCtx, r *ssa.Return) *Term {
+		if len(r.Results) == 1 {
+			return c.Term(r.Results[0])
+		}
+		rs := make([]*Term, len(r.Results))
+		for i, x := range r.Results {
+			rs[i] = c.Term(x)
+		}
+		return T("tuple", "", rs...)
+	}
+	if len(rets) == 1 {
+		c := a.NewFCtx(f, env, 1)
+		t := resultTerm(c, rets[0])
+		if !closedTerm(t) {
+			return nil
+		}
+		if !pure {
+			// the result must not read what the function itself writes (pre/post state confusion)
+			reads := map[string]bool{}
+			a.termReads(t, reads)
+			for l := range reads {
+				if a.writes[f][l] {
+					return nil
+				}
+			}
+			// an effectful helper with branches decides something: keep it named so that its summary applies
+			if len(f.Blocks) != 1 {
+				return nil
+			}
+		}
+		return t
+	}
+	if !pure || len(f.Blocks) > 24 || len(a.Loops(f).Loops) > 0 {
+		return nil
+	}
+	// (B) only unexported helpers without an error result: exported functions are anchors, and error-returning
+	// validators are handled (better) by their success/failure summaries
+	if f.Object() != nil && f.Object().Exported() {
+		return nil
+	}
+	for i := 0; i < f.Signature.Results().Len(); i++ {
+		if isErrorType(f.Signature.Results().At(i).Type()) {
+			return nil
+		}
+	}
+	// (B) enumerate paths
+	type path struct {
+		conds  []*Term
+		choice map[*ssa.Phi]ssa.Value
+		ret    *ssa.Return
+	}
+	var paths []path
+	var walk func(b, pred *ssa.BasicBlock, conds []*Term, choice map[*ssa.Phi]ssa.Value) bool
+	walk = func(b, pred *ssa.BasicBlock, conds []*Term, choice map[*ssa.Phi]ssa.Value) bool {
+		if len(paths) > 48 {
+			return false
+		}
+		ch := choice
+		if pred != nil {
+			copied := false
+			for _, in := range b.Instrs {
+				phi, ok := in.(*ssa.Phi)
+				if !ok {
+					break
+				}
+				if !copied {
+					ch = map[*ssa.Phi]ssa.Value{}
+					for k, v := range choice {
+						ch[k] = v
+					}
+					copied = true
+				}
+				for i, p := range b.Preds {
+					if p == pred {
+						ch[phi] = phi.Edges[i]
+					}
+				}
+			}
+		}
+		last := b.Instrs[len(b.Instrs)-1]
+		switch x := last.(type) {
+		case *ssa.Return:
+			paths = append(paths, path{append([]*Term{}, conds...), ch, x})
+			return true
+		case *ssa.If:
+			c := a.NewFCtx(f, env, 1)
+			c.PhiChoice = ch
+			ct := c.Term(x.Cond)
+			if !closedTerm(ct) {
+				return false
+			}
+			if !walk(b.Succs[0], b, append(conds, ct), ch) {
+				return false
+			}
+			return walk(b.Succs[1], b, append(conds, Not(ct)), ch)
+		case *ssa.Jump:
+			return walk(b.Succs[0], b, conds, ch)
+		}
+		return false // panic etc.
+	}
+	if !walk(f.Blocks[0], nil, nil, map[*ssa.Phi]ssa.Value{}) || len(paths) == 0 {
+		return nil
+	}
+	n := len(paths[0].ret.Results)
+	comps := make([]*Term, n)
+	for k := 0; k < n; k++ {
+		isBool := isBoolType(f.Signature.Results().At(k).Type())
+		var vals []*Term
+		for _, p := range paths {
+			c := a.NewFCtx(f, env, 1)
+			c.PhiChoice = p.choice
+			v := c.Term(p.ret.Results[k])
+			if !closedTerm(v) {
+				return nil
+			}
+			vals = append(vals, v)
+		}
+		if isBool {
+			var disj []*Term
+			for i, p := range paths {
+				if vals[i].Key() == tFalse.Key() {
+					continue
+				}
+				cj := append([]*Term{}, p.conds...)
+				if vals[i].Key() != tTrue.Key() {
+					cj = append(cj, vals[i])
+				}
+				disj = append(disj, mkAnd(cj))
+			}
+			comps[k] = mkOr(disj)
+		} else {
+			// ite chain; equal consecutive values are merged
+			t := vals[len(vals)-1]
+			for i := len(paths) - 2; i >= 0; i-- {
+				if vals[i].Key() == t.Key() {
+					continue
+				}
+				t = T("ite", "", mkAnd(paths[i].conds), vals[i], t)
+			}
+			comps[k] = t
+		}
+	}
+	if n == 1 {
+		return comps[0]
+	}
+	return T("tuple", "", comps...)
+}
+
+func mkAnd(xs []*Term) *Term {
+	var out []*Term
+	for _, x := range xs {
+		if x.Key() == tTrue.Key() {
+			continue
+		}
+		if x.Key() == tFalse.Key() {
+			return tFalse
+		}
+		if x.Op == "and" {
+			out = append(out, x.Args...)
+		} else {
+			out = append(out, x)
+		}
+	}
+	if len(out) == 0 {
+		return tTrue
+	}
+	if len(out) == 1 {
+		return out[0]
+	}
+	return T("and", "", out...)
+}
+
+func mkOr(xs []*Term) *Term {
+	var out []*Term
+	for _, x := range xs {
+		if x.Key() == tFalse.Key() {
+			continue
+		}
+		if x.Key() == tTrue.Key() {
+			return tTrue
+		}
+		if x.Op == "or" {
+			out = append(out, x.Args...)
+		} else {
+			out = append(out, x)
+		}
+	}
+	if len(out) == 0 {
+		return tFalse
+	}
+	if len(out) == 1 {
+		return out[0]
+	}
+	return T("or", "", out...)
 }
 
 // implementations of an interface method among library-scope concrete types
@@ -400,6 +663,8 @@ type FCtx struct {
 	// DeadEdge: edges (pred block -> succ block) proven infeasible by a previous dataflow pass under the case split
 	// in force; phi nodes ignore the values flowing in over them.
 	DeadEdge map[[2]*ssa.BasicBlock]bool
+	// PhiChoice: on one enumerated path, the incoming value each phi takes
+	PhiChoice map[*ssa.Phi]ssa.Value
 }
 
 func (a *Analyzer) NewFCtx(fn *ssa.Function, env map[ssa.Value]*Term, depth int) *FCtx {
@@ -901,6 +1166,11 @@ func generalize(t *Term, l *Loop, coll *Term) *Term {
 }
 
 func (c *FCtx) phiTerm(p *ssa.Phi) *Term {
+	if c.PhiChoice != nil {
+		if v, ok := c.PhiChoice[p]; ok {
+			return c.Term(v)
+		}
+	}
 	// all edges equal?
 	var first *Term
 	same := true
@@ -1329,19 +1599,19 @@ func bindEnv(a *Analyzer, f *ssa.Function, args []*Term, bindings []*Term) map[s
 }
 
 func (c *FCtx) inline(f *ssa.Function, args []*Term, bindings []*Term) *Term {
-	sub := c.A.NewFCtx(f, bindEnv(c.A, f, args, bindings), c.depth+1)
-	ret := f.Blocks[0].Instrs[len(f.Blocks[0].Instrs)-1].(*ssa.Return)
-	switch len(ret.Results) {
-	case 0:
-		return Const("void")
-	case 1:
-		return sub.Term(ret.Results[0])
+	vs := c.A.valueSummary(f)
+	m := map[string]*Term{}
+	for i := range f.Params {
+		if i < len(args) {
+			m[T("param", itoa(i)).Key()] = args[i]
+		}
 	}
-	rs := make([]*Term, len(ret.Results))
-	for i, r := range ret.Results {
-		rs[i] = sub.Term(r)
+	for i := range f.FreeVars {
+		if i < len(bindings) {
+			m[T("param", "f"+itoa(i)).Key()] = bindings[i]
+		}
 	}
-	return T("tuple", "", rs...)
+	return vs.Subst(m)
 }
 
 // intrinsic: declared models of anchored state accessors (checked against the code by the C13/C15 rules).
